@@ -1652,7 +1652,7 @@ impl Element {
         let element = self.0.read();
         let element_name = element.elemname.to_str();
 
-        if let Some(comment) = &self.0.read().comment {
+        if let Some(comment) = &element.comment {
             // put the comment on a separate line
             if !inline {
                 Self::serialize_newline_indent(outstring, indent);
@@ -1670,13 +1670,15 @@ impl Element {
         if !element.content.is_empty() {
             outstring.push('<');
             outstring.push_str(element_name);
-            self.serialize_attributes(outstring);
+            Self::serialize_attributes(&element, outstring);
             outstring.push('>');
 
-            match self.content_type() {
-                ContentType::Elements => {
+            // note: the read lock on this element is already held, so the content is used directly;
+            // locking the element again (e.g. through sub_elements()) could deadlock with a waiting writer
+            match element.elemtype.content_mode() {
+                ContentMode::Sequence | ContentMode::Choice | ContentMode::Bag => {
                     // serialize each sub-element
-                    for subelem in self.sub_elements() {
+                    for subelem in element.content.iter().filter_map(ElementContent::unwrap_element) {
                         if for_file.is_none()
                             || subelem.0.read().file_membership.is_empty()
                             || subelem.0.read().file_membership.contains(for_file.as_ref().unwrap())
@@ -1690,7 +1692,7 @@ impl Element {
                     outstring.push_str(element_name);
                     outstring.push('>');
                 }
-                ContentType::CharacterData => {
+                ContentMode::Characters => {
                     // write the character data on the same line as the opening tag
                     if let Some(ElementContent::CharacterData(chardata)) = element.content.first() {
                         chardata.serialize_internal(outstring);
@@ -1701,8 +1703,8 @@ impl Element {
                     outstring.push_str(element_name);
                     outstring.push('>');
                 }
-                ContentType::Mixed => {
-                    for item in self.content() {
+                ContentMode::Mixed => {
+                    for item in &element.content {
                         match item {
                             ElementContent::Element(subelem) => {
                                 if for_file.is_none()
@@ -1726,7 +1728,7 @@ impl Element {
         } else {
             outstring.push('<');
             outstring.push_str(element_name);
-            self.serialize_attributes(outstring);
+            Self::serialize_attributes(&element, outstring);
             outstring.push('/');
             outstring.push('>');
         }
@@ -1739,8 +1741,7 @@ impl Element {
         }
     }
 
-    fn serialize_attributes(&self, outstring: &mut String) {
-        let element = self.0.read();
+    fn serialize_attributes(element: &ElementRaw, outstring: &mut String) {
         if !element.attributes.is_empty() {
             for attribute in &element.attributes {
                 outstring.push(' ');
